@@ -264,3 +264,69 @@ def check(F, R):
     s_eval(F, R, I)
     funnel(F, R)
     d_handle(F, R)
+    s_order(F, R)
+
+
+def s_order(F, R, rule="S-ORDER"):
+    """S-ORDER: constants come from three sources -- the standard library, the caller (API) and the text -- and a later
+    one may be defined from an earlier one (`let n = len(weights)` with `weights` passed by the caller).  The type checker
+    (create_type_checker, create_token_type_map) and the transformer (transform_parsed_problem) must declare the sources
+    in the same order, otherwise one front door accepts what another rejects."""
+    def kind_of(e, f):
+        t = sexp(e)
+        if "make_std_constants" in t:
+            return "std"
+        s_ = strip(e)
+        while s_.get("k") == "MCall" and s_["name"] in ("iter", "into_iter", "clone", "cloned"):
+            s_ = strip(s_["recv"])
+        if s_.get("k") == "Path" and s_.get("res") == "local":
+            params = {p_["id"]: p_["name"] for prm in f.get("params", []) for p_ in walk(prm) if p_.get("k") == "PBind"}
+            if s_.get("id") in params and "Constant" in (F.ty(s_) or ""):
+                return "api"
+            # a local holding the std constants
+            return "local:" + s_.get("name", "?")
+        if re.search(r"\.constants(\(\))?$", t.replace(".clone()", "").replace("&", "")):
+            return "text"
+        return None
+
+    def chain_parts(e):
+        e = strip(e)
+        if e.get("k") == "MCall" and e["name"] == "chain":
+            return chain_parts(e["recv"]) + chain_parts(e["args"][0])
+        return [e]
+    seqs = {}
+    for path in ("parser::pre_model::PreModel::create_type_checker", "parser::pre_model::PreModel::create_token_type_map", "parser::model_transformer::model::transform_parsed_problem"):
+        f = F.fn(path)
+        if f is None:
+            R.ob(rule, "anchor:" + path.rsplit("::", 1)[-1], False, "", "%s not found" % path)
+            continue
+        R.fn(path)
+        lf = LocalFlow(f["body"])
+        seq = []
+        stmts = strip(f["body"]).get("stmts", []) + ([{"k": "Expr", "e": strip(f["body"])["e"]}] if strip(f["body"]).get("e") else [])
+        for st in stmts:
+            e = strip(st.get("e") or st.get("init") or {})
+            cands = []
+            if e.get("k") == "For" and any(x.get("k") == "MCall" and x["name"] in ("type_check", "populate_token_type_map") for x in walk(e["body"])):
+                cands = chain_parts(e["iter"])
+            elif st.get("k") == "Let" and st.get("init") is not None and "make_std_constants" in sexp(st["init"]) and "Vec<primitives::consts::Constant>" in (F.ty(strip(st["init"])) or "Vec<primitives::consts::Constant>"):
+                if path.endswith("transform_parsed_problem"):
+                    cands = [st["init"]]
+            elif e.get("k") == "MCall" and e["name"] == "extend":
+                cands = [e["args"][0]]
+            for c in cands:
+                k = kind_of(c, f)
+                if k and k.startswith("local:"):
+                    # resolve a local through its definition
+                    ids = free_locals(c)
+                    k2 = None
+                    for i in ids:
+                        for d in lf.defs.get(i, []):
+                            k2 = k2 or kind_of(d, f)
+                    k = k2
+                if k in ("std", "api", "text"):
+                    seq.append(k)
+        seqs[path.rsplit("::", 1)[-1]] = seq
+    ref = seqs.get("transform_parsed_problem")
+    for name, seq in seqs.items():
+        R.ob(rule, name, seq == ref and sorted(seq) == ["api", "std", "text"], "packages/rooc/src/parser/pre_model.rs", "constant sources are declared in the order %s; the transformer declares them in the order %s" % (seq, ref))
